@@ -1,10 +1,13 @@
 /-
-  C08 — timeseries operators equal the pointwise operation on aligned operands (Series and scalars).
-  Property theorems only; helper lemmas live in PygProofs/Lemmas/OpsLemmas.lean and AlignLemmas.lean.
-  DataFrame operands (column policy, neutral element) are not in the Lean model: see pv/props/c08.py `check_frames`.
+  C08 — timeseries operators equal the pointwise operation on aligned operands: Series and scalars (PygModel/Ops.lean),
+  multi-column DataFrames with the column policies 'ij' / 'oj' and the neutral element of a missing column
+  (PygModel/OpsF.lean), and on Series / scalars the comparisons, min_/max_ and pow_ for natural exponents (PygModel/OpsX.lean).
+  Property theorems only; helper lemmas live in PygProofs/Lemmas/OpsLemmas.lean, OpsFLemmas.lean, OpsXLemmas.lean, AlignLemmas.lean.
 -/
 import PygModel.Ops
 import PygProofs.Lemmas.OpsLemmas
+import PygProofs.Lemmas.OpsFLemmas
+import PygProofs.Lemmas.OpsXLemmas
 
 namespace Pyg.Props.C08
 open Pyg Pyg.Align Pyg.Ops
@@ -181,6 +184,599 @@ theorem mean_spec (vs : List (Option Rat)) :
   simp only [Agg.at, hc, sumAt, foldl_add_getD]
   cases h : vs.filterMap id <;> simp
 
+/-! ## DataFrames with several columns (`PygModel/OpsF.lean`)
+`cellD d f m c t` is the cell `(t, c)` of `f` as the operator sees it: the value that `_df_reindex(f, index, m)` puts at
+label `t` of column `c` (`m = none`: the plain lookup), and `d` if `f` has no column `c`.
+`frameCols ch a b` is the header of the result. -/
+
+/-- **value, index and columns at once**: for two frames with several columns each, `a op b` is the frame on the joint
+index whose cell `(t, c)` is `a[t, c] op b[t, c]`, where a column that one side lacks counts as the operation's neutral
+element (which only happens under the column policy `'oj'`, see `binopF_columns`); without any result column the code
+returns the empty `pd.Series({})` -/
+theorem binopF_value (op : Op) (how : How) (m : Option Dir) (ch : ColHow) (a b : RFrame)
+    (ha : a.cols.length > 1) (hb : b.cols.length > 1) :
+    ∃ ix, joinIndex how [a.idx, b.idx] = some ix ∧
+      binopF op how m ch (.df a) (.df b) =
+        if frameCols ch a b = [] then .ts { idx := [], vals := [] }
+        else .df { idx := ix, cols := (frameCols ch a b).map fun c =>
+                     (c, ix.map fun t => op.appO (cellD (some op.neutral) a m c t) (cellD (some op.neutral) b m c t)) } := by
+  obtain ⟨ix, hix⟩ := joinIndex_two how a.idx b.idx
+  refine ⟨ix, hix, ?_⟩
+  have h1 : indexesOfF [FOperand.df a, FOperand.df b] = [a.idx, b.idx] := rfl
+  have h2 : multiNames [FOperand.df (reindexF a ix m), FOperand.df (reindexF b ix m)] = [a.names, b.names] := by
+    rw [multiNames_frames _ _ (by rw [reindexF_ncols]; exact ha) (by rw [reindexF_ncols]; exact hb), reindexF_names, reindexF_names]
+  simp only [binopF, h1, hix, alignF, kernelF, h2, resultCols_two]
+  cases hc : frameCols ch a b with
+  | nil => simp
+  | cons c cs =>
+    simp only [List.cons_ne_nil, if_false]
+    congr 2
+    apply List.map_congr_left
+    intro c' _
+    rw [col_value op _ c' a b ix m ha hb]
+
+/-- **columns**: the result header is `frameCols`, whose members are the common columns under `'ij'` … -/
+theorem binopF_columns_ij (a b : RFrame) (c : String) : c ∈ frameCols .ij a b ↔ c ∈ a.names ∧ c ∈ b.names := by
+  unfold frameCols
+  split
+  · rename_i h; rw [h]; simp
+  · simp [colsJoin, mem_sortS, mem_interS]
+
+/-- … and the union of the columns under `'oj'` -/
+theorem binopF_columns_oj (a b : RFrame) (c : String) : c ∈ frameCols .oj a b ↔ c ∈ a.names ∨ c ∈ b.names := by
+  unfold frameCols
+  split
+  · rename_i h; rw [h]; simp
+  · simp [colsJoin, mem_sortS, mem_unionS]
+
+/-- the result header has no duplicates; it is sorted unless both frames have the same header (then it is that header) -/
+theorem binopF_columns_nodup (ch : ColHow) (a b : RFrame) (ha : a.names.Nodup) : (frameCols ch a b).Nodup := by
+  unfold frameCols
+  split
+  · exact ha
+  · exact sortedS_nodup _ (sorted_sortS _)
+
+theorem binopF_columns_sorted (ch : ColHow) (a b : RFrame) (h : b.names ≠ a.names) : SortedS (frameCols ch a b) := by
+  simp only [frameCols, h, if_false]
+  exact sorted_sortS _
+
+/-- the header of the result frame (a frame whenever there is a result column at all) -/
+theorem binopF_columns (op : Op) (how : How) (m : Option Dir) (ch : ColHow) (a b : RFrame)
+    (ha : a.cols.length > 1) (hb : b.cols.length > 1) :
+    (frameCols ch a b = [] ∧ binopF op how m ch (.df a) (.df b) = .ts { idx := [], vals := [] }) ∨
+    (frameCols ch a b ≠ [] ∧ ∃ r, binopF op how m ch (.df a) (.df b) = .df r ∧ r.names = frameCols ch a b) := by
+  obtain ⟨ix, _, h⟩ := binopF_value op how m ch a b ha hb
+  by_cases hc : frameCols ch a b = []
+  · exact .inl ⟨hc, by rw [h, if_pos hc]⟩
+  · refine .inr ⟨hc, _, by rw [h, if_neg hc], ?_⟩
+    simp [RFrame.names, List.map_map, Function.comp_def]
+
+/-- **index**: the result frame lives on the joint index of the two frames (`binop_index_inner / _outer`: the sorted
+intersection / union) -/
+theorem binopF_index (op : Op) (how : How) (m : Option Dir) (ch : ColHow) (a b r : RFrame)
+    (ha : a.cols.length > 1) (hb : b.cols.length > 1) (h : binopF op how m ch (.df a) (.df b) = .df r) :
+    joinIndex how [a.idx, b.idx] = some r.idx ∧ ∀ c ∈ r.cols, c.2.length = r.idx.length := by
+  obtain ⟨ix, hix, h'⟩ := binopF_value op how m ch a b ha hb
+  rw [h'] at h
+  split at h
+  · cases h
+  · cases h
+    refine ⟨hix, ?_⟩
+    intro c hc
+    simp only [List.mem_map] at hc
+    obtain ⟨_, _, rfl⟩ := hc
+    simp
+
+/-- **cell by cell**: reading the result by label, `result[t, c] = a[t, c] op b[t, c]` for every result column `c` and
+every label `t` of the joint index -/
+theorem binopF_cell (op : Op) (how : How) (m : Option Dir) (ch : ColHow) (a b r : RFrame)
+    (ha : a.cols.length > 1) (hb : b.cols.length > 1) (h : binopF op how m ch (.df a) (.df b) = .df r)
+    (c : String) (t : Int) (hc : c ∈ r.names) (ht : t ∈ r.idx) :
+    cellD Option.none r Option.none c t = op.appO (cellD (some op.neutral) a m c t) (cellD (some op.neutral) b m c t) := by
+  obtain ⟨ix, hix, h'⟩ := binopF_value op how m ch a b ha hb
+  rw [h'] at h
+  split at h
+  · cases h
+  · cases h
+    have hc' : c ∈ frameCols ch a b := by simpa [RFrame.names, List.map_map, Function.comp_def] using hc
+    exact cell_of_built Option.none ix (frameCols ch a b)
+      (fun c t => op.appO (cellD (some op.neutral) a m c t) (cellD (some op.neutral) b m c t)) c t hc' ht
+
+/-! ### the neutral element of a missing column (column policy `'oj'`) -/
+
+/-- a column that only the LEFT frame has: the right side acts as the neutral element (0 for add/sub, 1 for mul/div),
+so the result column is the left frame's column on the joint index, for all four operators -/
+theorem oj_neutral (op : Op) (how : How) (m : Option Dir) (a b r : RFrame)
+    (ha : a.cols.length > 1) (hb : b.cols.length > 1) (h : binopF op how m .oj (.df a) (.df b) = .df r)
+    (c : String) (hca : c ∈ a.names) (hcb : c ∉ b.names) (t : Int) (ht : t ∈ r.idx) :
+    c ∈ r.names ∧ cellD Option.none r Option.none c t = cellD Option.none a m c t := by
+  have hc : c ∈ r.names := by
+    rcases binopF_columns op how m .oj a b ha hb with ⟨_, h1⟩ | ⟨_, r', h1, h2⟩
+    · rw [h1] at h; cases h
+    · rw [h1] at h; cases h; rw [h2, binopF_columns_oj]; exact .inl hca
+  refine ⟨hc, ?_⟩
+  rw [binopF_cell op how m .oj a b r ha hb h c t hc ht, cellD_not_mem _ b m c t hcb, appO_neutral_right]
+  exact cellD_mem _ _ a m c t hca
+
+/-- a column that only the RIGHT frame has: the result is `neutral op b[t, c]` — `b[t, c]` itself for `add_ / mul_`,
+`0 - b[t, c]` for `sub_`, `1 / b[t, c]` for `div_` (NaN where `b[t, c] = 0`) -/
+theorem oj_neutral_left (op : Op) (how : How) (m : Option Dir) (a b r : RFrame)
+    (ha : a.cols.length > 1) (hb : b.cols.length > 1) (h : binopF op how m .oj (.df a) (.df b) = .df r)
+    (c : String) (hca : c ∉ a.names) (hcb : c ∈ b.names) (t : Int) (ht : t ∈ r.idx) :
+    c ∈ r.names ∧ cellD Option.none r Option.none c t = op.appO (some op.neutral) (cellD Option.none b m c t) := by
+  have hc : c ∈ r.names := by
+    rcases binopF_columns op how m .oj a b ha hb with ⟨_, h1⟩ | ⟨_, r', h1, h2⟩
+    · rw [h1] at h; cases h
+    · rw [h1] at h; cases h; rw [h2, binopF_columns_oj]; exact .inr hcb
+  refine ⟨hc, ?_⟩
+  rw [binopF_cell op how m .oj a b r ha hb h c t hc ht, cellD_not_mem _ a m c t hca, cellD_mem _ Option.none b m c t hcb]
+
+theorem oj_neutral_left_add (how : How) (m : Option Dir) (a b r : RFrame)
+    (ha : a.cols.length > 1) (hb : b.cols.length > 1) (h : binopF .add how m .oj (.df a) (.df b) = .df r)
+    (c : String) (hca : c ∉ a.names) (hcb : c ∈ b.names) (t : Int) (ht : t ∈ r.idx) :
+    cellD Option.none r Option.none c t = cellD Option.none b m c t := by
+  rw [(oj_neutral_left .add how m a b r ha hb h c hca hcb t ht).2, appO_neutral_left_add]
+
+theorem oj_neutral_left_mul (how : How) (m : Option Dir) (a b r : RFrame)
+    (ha : a.cols.length > 1) (hb : b.cols.length > 1) (h : binopF .mul how m .oj (.df a) (.df b) = .df r)
+    (c : String) (hca : c ∉ a.names) (hcb : c ∈ b.names) (t : Int) (ht : t ∈ r.idx) :
+    cellD Option.none r Option.none c t = cellD Option.none b m c t := by
+  rw [(oj_neutral_left .mul how m a b r ha hb h c hca hcb t ht).2, appO_neutral_left_mul]
+
+/-- under `'ij'` no neutral element is ever used: every result column is a column of both frames -/
+theorem ij_no_neutral (a b : RFrame) (c : String) (hc : c ∈ frameCols .ij a b) (d d' : Option Rat) (m : Option Dir) (t : Int) :
+    cellD d a m c t = cellD d' a m c t ∧ cellD d b m c t = cellD d' b m c t := by
+  rw [binopF_columns_ij] at hc
+  exact ⟨cellD_mem _ _ a m c t hc.1, cellD_mem _ _ b m c t hc.2⟩
+
+/-! ### a frame with a Series or a scalar: the Series / scalar is broadcast to every column -/
+
+theorem binopF_frame_series (op : Op) (how : How) (m : Option Dir) (ch : ColHow) (a : RFrame) (s : RSeries) (ha : a.cols.length > 1) :
+    ∃ ix, joinIndex how [a.idx, s.idx] = some ix ∧
+      binopF op how m ch (.df a) (.ts s) =
+        .df { idx := ix, cols := a.names.map fun c => (c, ix.map fun t => op.appO (cellD (some op.neutral) a m c t) (lookR s m t)) } := by
+  obtain ⟨ix, hix⟩ := joinIndex_two how a.idx s.idx
+  refine ⟨ix, hix, ?_⟩
+  have h1 : indexesOfF [FOperand.df a, FOperand.ts s] = [a.idx, s.idx] := rfl
+  have h2 : multiNames [FOperand.df (reindexF a ix m), FOperand.ts (reindexR s ix m)] = [a.names] := by
+    simp [multiNames, reindexF_ncols, ha, reindexF_names]
+  simp only [binopF, h1, hix, alignF, kernelF, h2, resultCols_one]
+  cases hc : a.names with
+  | nil => exact absurd hc (names_ne_nil a ha)
+  | cons c cs =>
+    simp only
+    congr 2
+    apply List.map_congr_left
+    intro c' _
+    rw [col_value_ts op _ c' a s ix m ha]
+
+theorem binopF_series_frame (op : Op) (how : How) (m : Option Dir) (ch : ColHow) (a : RFrame) (s : RSeries) (ha : a.cols.length > 1) :
+    ∃ ix, joinIndex how [s.idx, a.idx] = some ix ∧
+      binopF op how m ch (.ts s) (.df a) =
+        .df { idx := ix, cols := a.names.map fun c => (c, ix.map fun t => op.appO (lookR s m t) (cellD (some op.neutral) a m c t)) } := by
+  obtain ⟨ix, hix⟩ := joinIndex_two how s.idx a.idx
+  refine ⟨ix, hix, ?_⟩
+  have h1 : indexesOfF [FOperand.ts s, FOperand.df a] = [s.idx, a.idx] := rfl
+  have h2 : multiNames [FOperand.ts (reindexR s ix m), FOperand.df (reindexF a ix m)] = [a.names] := by
+    simp [multiNames, reindexF_ncols, ha, reindexF_names]
+  simp only [binopF, h1, hix, alignF, kernelF, h2, resultCols_one]
+  cases hc : a.names with
+  | nil => exact absurd hc (names_ne_nil a ha)
+  | cons c cs =>
+    simp only
+    congr 2
+    apply List.map_congr_left
+    intro c' _
+    rw [col_value_ts' op _ c' a s ix m ha]
+
+theorem binopF_frame_scalar (op : Op) (how : How) (m : Option Dir) (ch : ColHow) (a : RFrame) (q : Option Rat) (ha : a.cols.length > 1) :
+    binopF op how m ch (.df a) (.num q) =
+      .df { idx := a.idx, cols := a.names.map fun c => (c, a.idx.map fun t => op.appO (cellD (some op.neutral) a m c t) q) } := by
+  have h1 : indexesOfF [FOperand.df a, FOperand.num q] = [a.idx] := rfl
+  have hix : joinIndex how [a.idx] = some a.idx := by cases how <;> rfl
+  have h2 : multiNames [FOperand.df (reindexF a a.idx m), FOperand.num q] = [a.names] := by
+    simp [multiNames, reindexF_ncols, ha, reindexF_names]
+  simp only [binopF, h1, hix, alignF, kernelF, h2, resultCols_one]
+  cases hc : a.names with
+  | nil => exact absurd hc (names_ne_nil a ha)
+  | cons c cs =>
+    simp only
+    congr 2
+    apply List.map_congr_left
+    intro c' _
+    rw [col_value_num op _ c' a q a.idx m ha]
+
+theorem binopF_scalar_frame (op : Op) (how : How) (m : Option Dir) (ch : ColHow) (a : RFrame) (q : Option Rat) (ha : a.cols.length > 1) :
+    binopF op how m ch (.num q) (.df a) =
+      .df { idx := a.idx, cols := a.names.map fun c => (c, a.idx.map fun t => op.appO q (cellD (some op.neutral) a m c t)) } := by
+  have h1 : indexesOfF [FOperand.num q, FOperand.df a] = [a.idx] := rfl
+  have hix : joinIndex how [a.idx] = some a.idx := by cases how <;> rfl
+  have h2 : multiNames [FOperand.num q, FOperand.df (reindexF a a.idx m)] = [a.names] := by
+    simp [multiNames, reindexF_ncols, ha, reindexF_names]
+  simp only [binopF, h1, hix, alignF, kernelF, h2, resultCols_one]
+  cases hc : a.names with
+  | nil => exact absurd hc (names_ne_nil a ha)
+  | cons c cs =>
+    simp only
+    congr 2
+    apply List.map_congr_left
+    intro c' _
+    rw [col_value_num' op _ c' a q a.idx m ha]
+
+/-- a frame with ONE column acts as the Series of that column, whatever its name (`_df_column`: `ts.shape[1] == 1`), here
+against a frame with several columns; any index policy, fill method and column policy -/
+theorem one_col_left (op : Op) (how : How) (m : Option Dir) (ch : ColHow) (idx : List Int) (n : String) (col : RCol) (b : RFrame)
+    (hb : b.cols.length > 1) (h : col.length = idx.length) :
+    binopF op how m ch (.df { idx := idx, cols := [(n, col)] }) (.df b) =
+      binopF op how m ch (.ts { idx := idx, vals := col }) (.df b) := by
+  obtain ⟨ix, hix⟩ := joinIndex_two how idx b.idx
+  have h1 : indexesOfF [FOperand.df { idx := idx, cols := [(n, col)] }, FOperand.df b] = [idx, b.idx] := rfl
+  have h1' : indexesOfF [FOperand.ts { idx := idx, vals := col }, FOperand.df b] = [idx, b.idx] := rfl
+  simp only [binopF, h1, h1', hix, alignF, kernelF]
+  have h2 : multiNames [FOperand.df (reindexF { idx := idx, cols := [(n, col)] } ix m), FOperand.df (reindexF b ix m)] = [b.names] := by
+    simp [multiNames, reindexF_ncols, hb, reindexF_names]
+  have h2' : multiNames [FOperand.ts (reindexR { idx := idx, vals := col } ix m), FOperand.df (reindexF b ix m)] = [b.names] := by
+    simp [multiNames, reindexF_ncols, hb, reindexF_names]
+  rw [h2, h2', resultCols_one]
+  cases hc : b.names with
+  | nil => exact absurd hc (names_ne_nil b hb)
+  | cons c cs => simp only [colArg_one _ _ _ _ _ _ _ h]; rfl
+
+theorem one_col_right (op : Op) (how : How) (m : Option Dir) (ch : ColHow) (idx : List Int) (n : String) (col : RCol) (a : RFrame)
+    (ha : a.cols.length > 1) (h : col.length = idx.length) :
+    binopF op how m ch (.df a) (.df { idx := idx, cols := [(n, col)] }) =
+      binopF op how m ch (.df a) (.ts { idx := idx, vals := col }) := by
+  obtain ⟨ix, hix⟩ := joinIndex_two how a.idx idx
+  have h1 : indexesOfF [FOperand.df a, FOperand.df { idx := idx, cols := [(n, col)] }] = [a.idx, idx] := rfl
+  have h1' : indexesOfF [FOperand.df a, FOperand.ts { idx := idx, vals := col }] = [a.idx, idx] := rfl
+  simp only [binopF, h1, h1', hix, alignF, kernelF]
+  have h2 : multiNames [FOperand.df (reindexF a ix m), FOperand.df (reindexF { idx := idx, cols := [(n, col)] } ix m)] = [a.names] := by
+    simp [multiNames, reindexF_ncols, ha, reindexF_names]
+  have h2' : multiNames [FOperand.df (reindexF a ix m), FOperand.ts (reindexR { idx := idx, vals := col } ix m)] = [a.names] := by
+    simp [multiNames, reindexF_ncols, ha, reindexF_names]
+  rw [h2, h2', resultCols_one]
+  cases hc : a.names with
+  | nil => exact absurd hc (names_ne_nil a ha)
+  | cons c cs => simp only [colArg_one _ _ _ _ _ _ _ h]; rfl
+
+/-- one-column frames among themselves, with a Series or a scalar: the result is the Series result packed as a one-column
+frame (`pd.DataFrame(res)`), named after the operands' common column name, else `0` -/
+theorem one_col_series (op : Op) (how : How) (m : Option Dir) (ch : ColHow) (idx : List Int) (n : String) (col : RCol) (s : RSeries)
+    (h : col.length = idx.length) :
+    binopF op how m ch (.df { idx := idx, cols := [(n, col)] }) (.ts s) =
+      wrap1 "0" (binop op how m (.ts { idx := idx, vals := col }) (.ts s)) := by
+  obtain ⟨ix, hix, hb⟩ := binop_index op how m { idx := idx, vals := col } s
+  rw [hb]
+  have h1 : indexesOfF [FOperand.df { idx := idx, cols := [(n, col)] }, FOperand.ts s] = [idx, s.idx] := rfl
+  have h2 : multiNames [FOperand.df (reindexF { idx := idx, cols := [(n, col)] } ix m), FOperand.ts (reindexR s ix m)] = [] := by
+    simp [multiNames, reindexF]
+  simp only [binopF, h1, hix, alignF, kernelF, h2, resultCols, colArg_one _ _ _ _ _ _ _ h]
+  simp [colArg, kernel, isDf, resultName, nameOf, reindexF, wrap1, reindexR_idx]
+
+theorem one_col_scalar (op : Op) (how : How) (m : Option Dir) (ch : ColHow) (idx : List Int) (n : String) (col : RCol) (q : Option Rat)
+    (h : col.length = idx.length) :
+    binopF op how m ch (.df { idx := idx, cols := [(n, col)] }) (.num q) =
+      wrap1 n (binop op how m (.ts { idx := idx, vals := col }) (.num q)) := by
+  have h1 : indexesOfF [FOperand.df { idx := idx, cols := [(n, col)] }, FOperand.num q] = [idx] := rfl
+  have hix : joinIndex how [idx] = some idx := by cases how <;> rfl
+  have h2 : multiNames [FOperand.df (reindexF { idx := idx, cols := [(n, col)] } idx m), FOperand.num q] = [] := by
+    simp [multiNames, reindexF]
+  simp only [binopF, h1, hix, alignF, kernelF, h2, resultCols, colArg_one _ _ _ _ _ _ _ h]
+  simp [colArg, kernel, isDf, resultName, nameOf, reindexF, wrap1, reindexR_idx, binop, alignAll, indexesOf, hix]
+
+theorem one_col_one_col (op : Op) (how : How) (m : Option Dir) (ch : ColHow) (idx idx' : List Int) (n n' : String) (col col' : RCol)
+    (h : col.length = idx.length) (h' : col'.length = idx'.length) :
+    binopF op how m ch (.df { idx := idx, cols := [(n, col)] }) (.df { idx := idx', cols := [(n', col')] }) =
+      wrap1 (if n = n' then n else "0") (binop op how m (.ts { idx := idx, vals := col }) (.ts { idx := idx', vals := col' })) := by
+  obtain ⟨ix, hix, hb⟩ := binop_index op how m { idx := idx, vals := col } { idx := idx', vals := col' }
+  rw [hb]
+  have h1 : indexesOfF [FOperand.df { idx := idx, cols := [(n, col)] }, FOperand.df { idx := idx', cols := [(n', col')] }] = [idx, idx'] := rfl
+  have h2 : multiNames [FOperand.df (reindexF { idx := idx, cols := [(n, col)] } ix m), FOperand.df (reindexF { idx := idx', cols := [(n', col')] } ix m)] = [] := by
+    simp [multiNames, reindexF]
+  simp only [binopF, h1, hix, alignF, kernelF, h2, resultCols, colArg_one _ _ _ _ _ _ _ h, colArg_one _ _ _ _ _ _ _ h']
+  simp [kernel, isDf, resultName, nameOf, reindexF, wrap1, reindexR_idx]
+  split <;> simp_all
+
+/-- dividing a frame by the scalar 0 gives a NaN frame of the same shape (never ±inf; F10 for frames) -/
+theorem div_by_zero_scalar_frame (how : How) (m : Option Dir) (ch : ColHow) (a : RFrame) (ha : a.cols.length > 1) :
+    binopF .div how m ch (.df a) (.num (some 0)) =
+      .df { idx := a.idx, cols := a.names.map fun c => (c, a.idx.map fun _ => Option.none) } := by
+  rw [binopF_frame_scalar .div how m ch a (some 0) ha]
+  congr 2
+  apply List.map_congr_left
+  intro c _
+  congr 1
+  apply List.map_congr_left
+  intro t _
+  cases cellD (some (Op.neutral .div)) a m c t <;> simp [Op.appO, Op.app]
+
+/-- on Series and scalars the frame-aware operator is the operator of `PygModel/Ops.lean` (all theorems above apply) -/
+theorem binopF_refines (op : Op) (how : How) (m : Option Dir) (ch : ColHow) (a b : Operand) :
+    binopF op how m ch (.ofOperand a) (.ofOperand b) = .ofOperand (binop op how m a b) := by
+  cases a <;> cases b <;> cases how <;>
+    simp [binopF, binop, FOperand.ofOperand, indexesOfF, indexesOf, joinIndex, alignAll, alignF, kernelF, multiNames, resultCols,
+      colArg, isDf, kernel]
+
+/-! ### commutativity on frames -/
+
+theorem binopF_comm_aux (op : Op) (hop : ∀ x y, op.appO x y = op.appO y x) (how : How) (hh : how = .inner ∨ how = .outer)
+    (m : Option Dir) (ch : ColHow) (a b : RFrame)
+    (ha : a.cols.length > 1) (hb : b.cols.length > 1) (sa : SortedL a.idx) (sb : SortedL b.idx) :
+    binopF op how m ch (.df a) (.df b) = binopF op how m ch (.df b) (.df a) := by
+  obtain ⟨ix, h1, h2⟩ := binopF_value op how m ch a b ha hb
+  obtain ⟨ix', h1', h2'⟩ := binopF_value op how m ch b a hb ha
+  have hj : joinIndex how [a.idx, b.idx] = joinIndex how [b.idx, a.idx] := by
+    rcases hh with rfl | rfl
+    · exact joinIndex_comm_inner _ _ sa sb
+    · exact joinIndex_comm_outer _ _ sa sb
+  rw [hj, h1'] at h1
+  cases h1
+  rw [h2, h2', frameCols_comm ch b a]
+  split
+  · rfl
+  · congr 2
+    apply List.map_congr_left
+    intro c _
+    congr 1
+    apply List.map_congr_left
+    intro t _
+    exact hop _ _
+
+/-- `add_` and `mul_` are commutative on frames (sorted indices; index policies inner / outer; both column policies;
+any fill method): same header, same index, same cells -/
+theorem add_comm_frames (how : How) (hh : how = .inner ∨ how = .outer) (m : Option Dir) (ch : ColHow) (a b : RFrame)
+    (ha : a.cols.length > 1) (hb : b.cols.length > 1) (sa : SortedL a.idx) (sb : SortedL b.idx) :
+    binopF .add how m ch (.df a) (.df b) = binopF .add how m ch (.df b) (.df a) :=
+  binopF_comm_aux .add appO_comm_add how hh m ch a b ha hb sa sb
+
+theorem mul_comm_frames (how : How) (hh : how = .inner ∨ how = .outer) (m : Option Dir) (ch : ColHow) (a b : RFrame)
+    (ha : a.cols.length > 1) (hb : b.cols.length > 1) (sa : SortedL a.idx) (sb : SortedL b.idx) :
+    binopF .mul how m ch (.df a) (.df b) = binopF .mul how m ch (.df b) (.df a) :=
+  binopF_comm_aux .mul appO_comm_mul how hh m ch a b ha hb sa sb
+
+/-! ### lists of frames reduce left to right -/
+
+theorem reduce_left_frames (op : Op) (hop : op = .add ∨ op = .mul) (how : How) (m : Option Dir) (ch : ColHow)
+    (x : FOperand) (xs ys : List FOperand) :
+    opListF op how m ch (x :: xs) ys = some ((xs ++ ys).foldl (binopF op how m ch) x) := by
+  rcases hop with rfl | rfl <;> rfl
+
+theorem reduce_sub_frames (how : How) (m : Option Dir) (ch : ColHow) (x y : FOperand) (xs ys : List FOperand) :
+    opListF .sub how m ch (x :: xs) (y :: ys) =
+      some (binopF .sub how m ch (xs.foldl (binopF .add how m ch) x) (ys.foldl (binopF .add how m ch) y)) := rfl
+
+theorem reduce_div_frames (how : How) (m : Option Dir) (ch : ColHow) (x y : FOperand) (xs ys : List FOperand) :
+    opListF .div how m ch (x :: xs) (y :: ys) =
+      some (binopF .div how m ch (xs.foldl (binopF .mul how m ch) x) (ys.foldl (binopF .mul how m ch) y)) := rfl
+
+/-! ### `df_sum / df_mean / df_count` on frames (several columns each) -/
+
+/-- **value and index**: the aggregate of a list of frames lives on the joint index (the union under the default `'oj'`)
+with the joint header `aggCols`, and its cell `(t, c)` is the NaN-skipping aggregate `Agg.at` of the operands' cells
+`(t, c)`, a frame without column `c` or without a value at `t` contributing NaN.  `count_spec`, `sum_skipna` and
+`mean_spec` above say what `Agg.at` is: count of the non-NaN cells, their sum / mean, NaN where no operand has data. -/
+theorem aggF_value (g : Agg) (how : How) (m : Option Dir) (ch : ColHow) (f : RFrame) (fs : List RFrame) :
+    ∃ ix, joinIndex how ((f :: fs).map (·.idx)) = some ix ∧
+      aggregateF g how m ch (f :: fs) =
+        some { idx := ix, cols := (aggCols ch f fs).map fun c =>
+                 (c, ix.map fun t => g.at ((f :: fs).map fun x => cellD Option.none x m c t)) } := by
+  have hix : ∃ ix, joinIndex how ((f :: fs).map (·.idx)) = some ix := by cases how <;> exact ⟨_, rfl⟩
+  obtain ⟨ix, hix⟩ := hix
+  refine ⟨ix, hix, ?_⟩
+  have hix' : joinIndex how (f.idx :: fs.map (·.idx)) = some ix := hix
+  simp only [aggregateF, hix', List.map_cons]
+  congr 2
+  apply List.map_congr_left
+  intro c hc
+  congr 1
+  apply List.ext_getElem
+  · simp
+  · intro k h1 h2
+    simp only [List.getElem_map, List.getElem_range]
+    congr 1
+    have hk : k < ix.length := by simpa using h1
+    have hc' : c ∈ colsJoin ch f.names (fs.map (·.names)) := hc
+    simp only [List.map_map, Function.comp_def, col_recol _ _ ix m c hc', Option.bind_some, List.getElem?_map,
+      List.getElem?_eq_getElem hk, Option.map_some, Option.join_some]
+
+/-- the joint header: the union of the headers under `'oj'` (the default), the common columns under `'ij'`; sorted -/
+theorem aggF_columns_oj (f : RFrame) (fs : List RFrame) (c : String) :
+    c ∈ aggCols .oj f fs ↔ ∃ x ∈ f :: fs, c ∈ x.names := by
+  simp only [aggCols, colsJoin, mem_sortS, mem_foldl_unionS, List.mem_map, List.mem_cons, exists_eq_or_imp]
+  constructor
+  · rintro (h | ⟨_, ⟨x, hx, rfl⟩, h⟩)
+    · exact .inl h
+    · exact .inr ⟨x, hx, h⟩
+  · rintro (h | ⟨x, hx, h⟩)
+    · exact .inl h
+    · exact .inr ⟨_, ⟨x, hx, rfl⟩, h⟩
+
+theorem aggF_columns_ij (f : RFrame) (fs : List RFrame) (c : String) :
+    c ∈ aggCols .ij f fs ↔ ∀ x ∈ f :: fs, c ∈ x.names := by
+  simp only [aggCols, colsJoin, mem_sortS, mem_foldl_interS, List.mem_map, List.mem_cons, forall_eq_or_imp]
+  constructor
+  · rintro ⟨h1, h2⟩
+    exact ⟨h1, fun x hx => h2 _ ⟨x, hx, rfl⟩⟩
+  · rintro ⟨h1, h2⟩
+    refine ⟨h1, ?_⟩
+    rintro _ ⟨x, hx, rfl⟩
+    exact h2 x hx
+
+theorem aggF_columns_sorted (ch : ColHow) (f : RFrame) (fs : List RFrame) : SortedS (aggCols ch f fs) := sorted_sortS _
+
+/-- reading the aggregate by label: cell `(t, c)` = `Agg.at` of the operands' cells -/
+theorem aggF_cell (g : Agg) (how : How) (m : Option Dir) (ch : ColHow) (f : RFrame) (fs : List RFrame) (r : RFrame)
+    (h : aggregateF g how m ch (f :: fs) = some r) (c : String) (t : Int) (hc : c ∈ r.names) (ht : t ∈ r.idx) :
+    cellD Option.none r Option.none c t = g.at ((f :: fs).map fun x => cellD Option.none x m c t) := by
+  obtain ⟨ix, _, h'⟩ := aggF_value g how m ch f fs
+  rw [h'] at h
+  cases h
+  have hc' : c ∈ aggCols ch f fs := by simpa [RFrame.names, List.map_map, Function.comp_def] using hc
+  exact cell_of_built Option.none ix (aggCols ch f fs) (fun c t => g.at ((f :: fs).map fun x => cellD Option.none x m c t)) c t hc' ht
+
+/-- `df_sum` is NaN and `df_count` is 0 exactly where no operand has data in that cell -/
+theorem aggF_no_data (vs : List (Option Rat)) (h : ∀ v ∈ vs, v = Option.none) :
+    Agg.at .sum vs = Option.none ∧ Agg.at .mean vs = Option.none ∧ Agg.at .count vs = some 0 := by
+  have h0 : vs.filterMap id = [] := by
+    rw [List.filterMap_eq_nil_iff]
+    intro v hv; rw [h v hv]; rfl
+  refine ⟨by rw [sum_skipna, if_pos h0], by rw [mean_spec, if_pos h0], by rw [count_spec, h0]; rfl⟩
+
+/-! ## the other operators the statement names, on Series and scalars (`PygModel/OpsX.lean`)
+`binopG f` is the presync kernel with an arbitrary pointwise function `f`; `min_ / max_` use `MM.appO`, `pow_` uses `powO`. -/
+
+/-- the arithmetic operators are instances of the generic kernel -/
+theorem binop_eq_binopG (op : Op) (how : How) (m : Option Dir) (a b : Operand) : binop op how m a b = binopG op.appO how m a b := by
+  simp only [binop, binopG, kernel_eq_kernelG]
+  rfl
+
+/-- two Series, no fill method: the result lives on the joint index and `result[t] = f a[t] b[t]` -/
+theorem binopG_value (f : Option Rat → Option Rat → Option Rat) (how : How) (a b : RSeries) :
+    ∃ ix, joinIndex how [a.idx, b.idx] = some ix ∧
+      binopG f how Option.none (.ts a) (.ts b) = .ts { idx := ix, vals := ix.map fun t => f (valueAtR a t) (valueAtR b t) } := by
+  cases how <;> exact ⟨_, rfl, by simp [binopG, alignAll, indexesOf, joinIndex, kernelG, reindexR, List.zip_map', List.map_map, Function.comp_def]⟩
+
+theorem binopG_scalar_right (f : Option Rat → Option Rat → Option Rat) (how : How) (a : RSeries) (q : Option Rat) :
+    binopG f how Option.none (.ts a) (.num q) = .ts { idx := a.idx, vals := a.idx.map fun t => f (valueAtR a t) q } := by
+  cases how <;> simp [binopG, alignAll, indexesOf, joinIndex, kernelG, reindexR, List.map_map, Function.comp_def]
+
+theorem binopG_scalar_left (f : Option Rat → Option Rat → Option Rat) (how : How) (b : RSeries) (q : Option Rat) :
+    binopG f how Option.none (.num q) (.ts b) = .ts { idx := b.idx, vals := b.idx.map fun t => f q (valueAtR b t) } := by
+  cases how <;> simp [binopG, alignAll, indexesOf, joinIndex, kernelG, reindexR, List.map_map, Function.comp_def]
+
+theorem binopG_scalar_scalar (f : Option Rat → Option Rat → Option Rat) (how : How) (m : Option Dir) (p q : Option Rat) :
+    binopG f how m (.num p) (.num q) = .num (f p q) := by
+  cases how <;> simp [binopG, alignAll, indexesOf, joinIndex, kernelG]
+
+/-- a commutative pointwise function gives a commutative operator (sorted indices, inner / outer) -/
+theorem binopG_comm (f : Option Rat → Option Rat → Option Rat) (hf : ∀ x y, f x y = f y x) (how : How)
+    (hh : how = .inner ∨ how = .outer) (m : Option Dir) (a b : RSeries) (ha : SortedL a.idx) (hb : SortedL b.idx) :
+    binopG f how m (.ts a) (.ts b) = binopG f how m (.ts b) (.ts a) := by
+  obtain ⟨ix, h1, h2⟩ := binopG_index f how m a b
+  obtain ⟨ix', h1', h2'⟩ := binopG_index f how m b a
+  have hj : joinIndex how [a.idx, b.idx] = joinIndex how [b.idx, a.idx] := by
+    rcases hh with rfl | rfl
+    · exact joinIndex_comm_inner _ _ ha hb
+    · exact joinIndex_comm_outer _ _ ha hb
+  rw [hj, h1'] at h1
+  cases h1
+  rw [h2, h2']
+  congr 2
+  apply List.ext_getElem
+  · simp [Nat.min_comm]
+  · intro i h3 h4; simp; exact hf _ _
+
+/-! ### `min_ / max_` -/
+
+/-- the pointwise minimum / maximum is one of its arguments and bounds both -/
+theorem min_spec (x y : Rat) : (MM.app .min x y = x ∨ MM.app .min x y = y) ∧ MM.app .min x y ≤ x ∧ MM.app .min x y ≤ y := by
+  simp only [MM.app]
+  split
+  · rename_i h; exact ⟨.inl rfl, Rat.le_refl, h⟩
+  · rename_i h
+    have : y ≤ x := by rcases @Rat.le_total x y with h' | h'; exact absurd h' h; exact h'
+    exact ⟨.inr rfl, this, Rat.le_refl⟩
+
+theorem max_spec (x y : Rat) : (MM.app .max x y = x ∨ MM.app .max x y = y) ∧ x ≤ MM.app .max x y ∧ y ≤ MM.app .max x y := by
+  simp only [MM.app]
+  split
+  · rename_i h; exact ⟨.inr rfl, h, Rat.le_refl⟩
+  · rename_i h
+    have : y ≤ x := by rcases @Rat.le_total x y with h' | h'; exact absurd h' h; exact h'
+    exact ⟨.inl rfl, Rat.le_refl, this⟩
+
+/-- NaN on either side gives NaN (`np.minimum / np.maximum` propagate NaN) -/
+theorem mm_nan (k : MM) (x : Option Rat) : k.appO Option.none x = Option.none ∧ k.appO x Option.none = Option.none := by
+  cases x <;> simp [MM.appO]
+
+/-- `min_(a, b)` / `max_(a, b)` of two Series: pointwise on the joint index -/
+theorem mm_value (k : MM) (how : How) (a b : RSeries) :
+    ∃ ix, joinIndex how [a.idx, b.idx] = some ix ∧
+      mmList k how Option.none [.ts a] [.ts b] =
+        some (.ts { idx := ix, vals := ix.map fun t => k.appO (valueAtR a t) (valueAtR b t) }) := by
+  cases how <;> exact ⟨_, rfl, by simp [mmList, reducer, alignAll, indexesOf, joinIndex, kernelG, reindexR, List.zip_map', List.map_map, Function.comp_def]⟩
+
+/-- all operands are synchronised at once, then reduced from the left; no operand gives `None` -/
+theorem mm_reduce (k : MM) (how : How) (m : Option Dir) (as bs : List Operand) :
+    mmList k how m as bs = reducer (kernelG k.appO) (alignAll how m (as ++ bs)) ∧ mmList k how m [] [] = Option.none := by
+  refine ⟨rfl, ?_⟩
+  cases how <;> rfl
+
+theorem mm_comm (k : MM) (how : How) (hh : how = .inner ∨ how = .outer) (m : Option Dir) (a b : RSeries)
+    (ha : SortedL a.idx) (hb : SortedL b.idx) :
+    binopG k.appO how m (.ts a) (.ts b) = binopG k.appO how m (.ts b) (.ts a) :=
+  binopG_comm k.appO (mm_appO_comm k) how hh m a b ha hb
+
+/-! ### `pow_` for exponents that are NaN or non-negative integers -/
+
+theorem pow_nat (x : Rat) (n : Nat) : powO (some x) (some (n : Rat)) = some (x ^ n) := by
+  simp only [powO, natExp_natCast, Option.map_some]
+  split
+  · rename_i h
+    have : n = 0 := by exact_mod_cast h
+    subst this; simp [Rat.pow_zero]
+  · split
+    · rename_i h; subst h; rw [rat_one_pow]
+    · rfl
+
+/-- `x ** 0 = 1` and `1 ** y = 1` even when the other side is NaN; otherwise NaN propagates -/
+theorem pow_zero_exp (x : Option Rat) : powO x (some 0) = some 1 := by
+  cases x <;> simp [powO]
+
+theorem pow_one_base (y : Option Rat) : powO (some 1) y = some 1 := by
+  cases y <;> simp [powO]
+
+theorem pow_nan_exp (x : Rat) (h : x ≠ 1) : powO (some x) Option.none = Option.none := by simp [powO, h]
+
+theorem pow_nan_base (y : Option Rat) (h : y ≠ some 0) : powO Option.none y = Option.none := by
+  cases y with
+  | none => rfl
+  | some y => have : y ≠ 0 := fun e => h (by rw [e]); simp [powO, this]
+
+/-- `pow_(a, b)` of two Series: `result[t] = a[t] ** b[t]` on the joint index -/
+theorem pow_value (how : How) (a b : RSeries) :
+    ∃ ix, joinIndex how [a.idx, b.idx] = some ix ∧
+      powop how Option.none (.ts a) (.ts b) = .ts { idx := ix, vals := ix.map fun t => powO (valueAtR a t) (valueAtR b t) } :=
+  binopG_value powO how a b
+
+/-! ### comparisons -/
+
+/-- a comparison with NaN on either side is False -/
+theorem cmp_nan_false (c : Cmp) (x : Option Rat) : c.appO Option.none x = false ∧ c.appO x Option.none = false := by
+  cases x <;> simp [Cmp.appO]
+
+/-- two Series, no fill method: a bool Series on the joint index with `result[t] = (a[t] cmp b[t])` -/
+theorem cmp_value (c : Cmp) (how : How) (a b : RSeries) :
+    ∃ ix, joinIndex how [a.idx, b.idx] = some ix ∧
+      cmpop c how Option.none (.ts a) (.ts b) = .ts ix (ix.map fun t => c.appO (valueAtR a t) (valueAtR b t)) := by
+  cases how <;> exact ⟨_, rfl, by simp [cmpop, alignAll, indexesOf, joinIndex, cmpKernel, reindexR, List.zip_map', List.map_map, Function.comp_def]⟩
+
+theorem cmp_scalar_right (c : Cmp) (how : How) (a : RSeries) (q : Option Rat) :
+    cmpop c how Option.none (.ts a) (.num q) = .ts a.idx (a.idx.map fun t => c.appO (valueAtR a t) q) := by
+  cases how <;> simp [cmpop, alignAll, indexesOf, joinIndex, cmpKernel, reindexR, List.map_map, Function.comp_def]
+
+theorem cmp_scalar_left (c : Cmp) (how : How) (b : RSeries) (q : Option Rat) :
+    cmpop c how Option.none (.num q) (.ts b) = .ts b.idx (b.idx.map fun t => c.appO q (valueAtR b t)) := by
+  cases how <;> simp [cmpop, alignAll, indexesOf, joinIndex, cmpKernel, reindexR, List.map_map, Function.comp_def]
+
+theorem cmp_scalar_scalar (c : Cmp) (how : How) (m : Option Dir) (p q : Option Rat) :
+    cmpop c how m (.num p) (.num q) = .flag (c.appO p q) := by
+  cases how <;> simp [cmpop, alignAll, indexesOf, joinIndex, cmpKernel]
+
+/-- `a > b` is `b < a`, `a >= b` is `b <= a`; on numbers `>` is the negation of `<=` and `>=` of `<` -/
+theorem cmp_swap (x y : Option Rat) : Cmp.appO .gt x y = Cmp.appO .lt y x ∧ Cmp.appO .ge x y = Cmp.appO .le y x := by
+  cases x <;> cases y <;> simp [Cmp.appO, Cmp.app]
+
+theorem gt_not_le (x y : Rat) : Cmp.app .gt x y = !Cmp.app .le x y := by
+  by_cases h : x ≤ y
+  · simp [Cmp.app, h, Rat.not_lt.mpr h]
+  · simp [Cmp.app, h, Rat.not_le.mp h]
+
+theorem ge_not_lt (x y : Rat) : Cmp.app .ge x y = !Cmp.app .lt x y := by
+  by_cases h : y ≤ x
+  · simp [Cmp.app, h, Rat.not_lt.mpr h]
+  · simp [Cmp.app, h, Rat.not_le.mp h]
+
 /-! ### non-vacuity and evaluation checks
 (`Rat` arithmetic does not reduce in the kernel, so concrete results are `#guard` evaluation tests, not theorems) -/
 
@@ -201,5 +797,44 @@ example : SortedL [1, 2, 3] ∧ SortedL [2, 3, 4] ∧ joinIndex .inner [[1, 2, 3
     some [some 1, Option.none, some 3]
 #guard opList .mul .inner Option.none [.ts { idx := [1, 2], vals := [some 2, some 3] }, .num (some 2), .ts { idx := [2], vals := [some 5] }] [] ==
     some (.ts { idx := [2], vals := [some 30] })
+
+/-! frames: the probe of the real code recorded in docs/notes/C08.md -/
+private def fa : RFrame := { idx := [0, 1, 2], cols := [("a", [some 1, some 2, some 3]), ("b", [some 4, Option.none, some 6])] }
+private def fb : RFrame := { idx := [1, 2, 3], cols := [("b", [some 1, some 0, some 2]), ("c", [some 5, some 5, some 5])] }
+private def fx : RFrame := { idx := [1, 2, 3], cols := [("x", [some 1, some 0, some 2]), ("y", [some 5, some 5, some 5])] }
+private def fba : RFrame := { idx := [1, 2, 3], cols := [("b", [some 1, some 0, some 2]), ("a", [some 5, some 5, some 5])] }
+
+/-- the hypotheses of the frame theorems hold on frames with partially overlapping indices and headers -/
+example : fa.cols.length > 1 ∧ fb.cols.length > 1 ∧ SortedL fa.idx ∧ SortedL fb.idx ∧ fa.names.Nodup ∧
+    "a" ∈ fa.names ∧ "a" ∉ fb.names ∧ "c" ∉ fa.names ∧ "c" ∈ fb.names ∧ fb.names ≠ fa.names := by decide
+
+#guard frameCols .ij fa fb == ["b"] && frameCols .oj fa fb == ["a", "b", "c"] && frameCols .ij fa fx == [] &&
+  frameCols .ij fba fba == ["b", "a"] && frameCols .ij fa fba == ["a", "b"]
+#guard binopF .div .inner Option.none .oj (.df fa) (.df fb) ==
+  .df { idx := [1, 2], cols := [("a", [some 2, some 3]), ("b", [Option.none, Option.none]), ("c", [some (1 / 5), some (1 / 5)])] }
+#guard binopF .sub .outer Option.none .oj (.df fa) (.df fb) ==
+  .df { idx := [0, 1, 2, 3], cols := [("a", [some 1, some 2, some 3, Option.none]), ("b", [Option.none, Option.none, some 6, Option.none]),
+                                      ("c", [Option.none, some (-5), some (-5), some (-5)])] }
+#guard binopF .add .inner Option.none .ij (.df fa) (.df fb) == .df { idx := [1, 2], cols := [("b", [Option.none, some 6])] }
+#guard binopF .add .inner Option.none .ij (.df fa) (.df fx) == .ts { idx := [], vals := [] }
+#guard binopF .add .inner Option.none .ij (.df fa) (.ts { idx := [1, 2, 4], vals := [some 10, some 20, some 30] }) ==
+  .df { idx := [1, 2], cols := [("a", [some 12, some 23]), ("b", [Option.none, some 26])] }
+#guard binopF .add .inner Option.none .ij (.df { idx := [1, 2, 3], cols := [("z", [some 1, some 2, some 3])] })
+    (.df { idx := [2, 3, 4], cols := [("w", [some 1, some 2, some 3])] }) == .df { idx := [2, 3], cols := [("0", [some 3, some 5])] }
+#guard (aggregateF .sum .outer Option.none .oj [fa, fb]) ==
+  some { idx := [0, 1, 2, 3], cols := [("a", [some 1, some 2, some 3, Option.none]), ("b", [some 4, some 1, some 6, some 2]),
+                                       ("c", [Option.none, some 5, some 5, some 5])] }
+#guard opListF .add .inner Option.none .oj [.df fa, .df fb, .df fba] [] ==
+  some (.df { idx := [1, 2], cols := [("a", [some 7, some 8]), ("b", [Option.none, some 6]), ("c", [some 5, some 5])] })
+
+#guard mmList .max .outer Option.none [.ts { idx := [0, 1, 2, 3], vals := [some 1, Option.none, some 3, some 0] }]
+    [.ts { idx := [1, 2, 3, 5], vals := [some 1, some 2, Option.none, some (-1)] }] ==
+  some (.ts { idx := [0, 1, 2, 3, 5], vals := [Option.none, Option.none, some 3, Option.none, Option.none] })
+#guard powop .outer Option.none (.ts { idx := [0, 1, 2, 3], vals := [some 1, Option.none, some 3, some 0] })
+    (.ts { idx := [1, 2, 3, 5], vals := [some 1, some 2, Option.none, some (-1)] }) ==
+  .ts { idx := [0, 1, 2, 3, 5], vals := [some 1, Option.none, some 9, Option.none, Option.none] }
+#guard cmpop .ge .inner Option.none (.ts { idx := [0, 1, 2, 3], vals := [some 1, Option.none, some 3, some 0] }) (.num (some 1)) ==
+  .ts [0, 1, 2, 3] [true, false, true, false]
+#guard powDomain (.num (some (-1))) == false && powDomain (.num (some (1 / 2))) == false && powDomain (.num (some 3))
 
 end Pyg.Props.C08
